@@ -269,14 +269,15 @@ class Tree:
 # ------------------------------------------------------------------------------- where the archive lives
 class Arch:
     """the archive of a history: <sandbox>/ar/x.pna or x.part1.pna .. x.partN.pna"""
-    def __init__(self, sb):
+    def __init__(self, sb, base=None):
         self.sb = sb
+        self.base = base or sb.root          # the directory the commands run in (archive paths are relative to it)
         self.dir = sb.path("ar")
         os.makedirs(self.dir, exist_ok=True)
         self.parts = []
 
     def rel(self, p):
-        return os.path.relpath(p, self.sb.root)
+        return os.path.relpath(p, self.base)
 
     @property
     def cur(self):
@@ -305,7 +306,7 @@ class Arch:
 
 def pna_list(sb, arch, password=None):
     args = ["--quiet", "list", "--solid", arch.cur] + (["--password", password] if password else [])
-    r = cli.run_pna(args, sb.root)
+    r = cli.run_pna(args, arch.base)
     return r, [l for l in r["out"].decode("utf-8", "surrogateescape").split("\n") if l]
 
 
